@@ -171,3 +171,16 @@ Proof. exact tight_every_entry_confined. Qed.
 Theorem C19_tight_every_entry_confined_prefix_refuted : exists root ms o,
   In o (tight_run v_tight_prefix true true false root tstate0 ms) /\ ~ below_root root (tfs_path o).
 Proof. exact tight_every_entry_confined_refuted. Qed.
+
+(* the extension's command line (rfbTightProcessArg / InitFileTransfer / SetFtpRoot): for every passwd
+   entry and file system ([env]), every prior state and every further arguments:
+   C19_tight_disable_is_final - after -disablefiletransfer nothing switches transfer on again *)
+Theorem C19_tight_disable_is_final : forall env st rest,
+  t_enabled (run_args env st (s_disable :: rest)) = false.
+Proof. exact tight_disable_is_final. Qed.
+
+(* C19_tight_root_is_last_given - the root is the directory of the last -ftproot option *)
+Theorem C19_tight_root_is_last_given : forall env st p rest,
+  dir_ok env p = true -> 0 < Zlength p <= C19_PATH_MAX - 1 -> ~ In s_ftproot rest ->
+  t_root (run_args env st (s_ftproot :: p :: rest)) = strip_slash p.
+Proof. exact tight_root_is_last_given. Qed.
